@@ -37,13 +37,13 @@ Definition byte_of_ascii (a : Ascii.ascii) : N := Ascii.N_of_ascii a.
 Fixpoint bytes_of_string (s : String.string) : bytes :=
   match s with String.EmptyString => [] | String.String a s' => byte_of_ascii a :: bytes_of_string s' end.
 
-(* pkg/ref/refs.go constants; tied to the source by gen/Tie_C15.v through
+(* pkg/ref/refs.go constants (evaluated here so that no Coq [string] reaches the extraction); tied to the source by gen/Tie_C15.v through
    [model_ref_prefixes] = translator's [ref_prefixes] *)
 Definition model_ref_prefixes : list String.string := ["heads/"; "tags/"; "remotes/"; "txs/"]%string.
-Definition head_prefix : bytes := bytes_of_string (nth 0 model_ref_prefixes ""%string).
-Definition tag_prefix : bytes := bytes_of_string (nth 1 model_ref_prefixes ""%string).
-Definition remote_ref_prefix : bytes := bytes_of_string (nth 2 model_ref_prefixes ""%string).
-Definition tx_ref_prefix : bytes := bytes_of_string (nth 3 model_ref_prefixes ""%string).
+Definition head_prefix : bytes := Eval vm_compute in bytes_of_string (nth 0 model_ref_prefixes ""%string).
+Definition tag_prefix : bytes := Eval vm_compute in bytes_of_string (nth 1 model_ref_prefixes ""%string).
+Definition remote_ref_prefix : bytes := Eval vm_compute in bytes_of_string (nth 2 model_ref_prefixes ""%string).
+Definition tx_ref_prefix : bytes := Eval vm_compute in bytes_of_string (nth 3 model_ref_prefixes ""%string).
 Definition slash : N := 47.
 (* RemoteRef(remote, "") and TransactionRef(id, "") *)
 Definition remote_prefix (r : bytes) : bytes := remote_ref_prefix ++ r ++ [slash].
